@@ -9,11 +9,13 @@ CONSTANTS MaxCalls,      \* budget of tag/view API calls
           MaxViews,
           Menu,          \* which definition menu to use: "tags" | "files" | "conv"
           Invalid,       \* TRUE: also issue calls that must be rejected (C11)
-          Crashes        \* TRUE: also take crash copies of the data directory (C12; no effect on the model state)
+          Crashes,       \* TRUE: also take crash copies of the data directory (C12; no effect on the model state)
+          Restarts       \* TRUE: the process may be killed between two steps and restarted (C12; spends a call)
 
-VARIABLES clock, calls
+VARIABLES clock, calls,
+          lost           \* history: captures that were only queued when the process was killed (never imported afterwards)
 
-mcvars == <<vars, clock, calls>>
+mcvars == <<vars, clock, calls, lost>>
 
 \* ---- the world (the Go harness has the same one: harness/manager/world_test.go) ----
 MCCaps   == {1, 2, 3}
@@ -58,20 +60,31 @@ ApiEvents ==
     \cup {Ev("ViewOpen", 0, "", NoDef, <<>>, "v" \o ToString(i)) : i \in 0 .. MaxCalls}
     \cup {Ev("ViewRelease", 0, "", NoDef, <<>>, v) : v \in DOMAIN views}
     \cup (IF Crashes THEN {EvX(w, c) : w \in {"none", "state", "idx"}, c \in {1, 7, 40, 97, 333, 1001}} ELSE {})
+    \cup (IF Restarts THEN {E0("Restart")} ELSE {})
     \cup (IF ConvNames = {} THEN {} ELSE
              {EvC("SetConverters", n, cs, "", 0) : n \in TagNames, cs \in ConvLists}
              \cup {EvC("ConvReset", "", <<c>>, "", 0) : c \in ConvNames}
              \cup {EvC("ViewConvert", "", <<c>>, v, s) : c \in ConvNames, v \in DOMAIN views, s \in 0 .. 2})
 
-Spend == calls' = calls + 1 /\ UNCHANGED clock
-Free  == UNCHANGED <<clock, calls>>
-NewFile == clock' = clock + 1 /\ UNCHANGED calls
+Spend == calls' = calls + 1 /\ UNCHANGED <<clock, lost>>
+Free  == UNCHANGED <<clock, calls, lost>>
+NewFile == clock' = clock + 1 /\ UNCHANGED <<calls, lost>>
 Budget == calls < MaxCalls
 AnyP == DOMAIN tags \cup TagNames \cup {""}
 
 \* a call is valid iff the specification's precondition holds; an invalid call is rejected and is a no-op
 Call(ok, action) == Budget /\ IF ok THEN action /\ Spend ELSE (Invalid /\ Rejected /\ Spend)
 
+\* the index files in the order of their names (names carry the creation time)
+FilesByName == LET ns == {n \in 1 .. clock : FileName(n) \in DOMAIN files}
+                   sq == SeqOfSet(ns)
+               IN [i \in DOMAIN sq |-> FileName(sq[i])]
+\* the known finding C12.StreamsKept:reordered: the name order of the served files differs from the order they are
+\* served in (an import file created before a merge output but installed after it).  Restarts are explored from the
+\* other states only; the finding itself is replayed on the real service by a regression schedule.
+NameOrderIsServeOrder ==
+    LET pos(sq, x) == CHOOSE i \in DOMAIN sq : sq[i] = x IN
+    \A x, y \in Range(indexes) : pos(indexes, x) < pos(indexes, y) => pos(FilesByName, x) < pos(FilesByName, y)
 Step(e) ==
     CASE e.a = "ApiImport"     -> ApiImport(e.k) /\ Free
       [] e.a = "ImportCompute" -> ImportCompute(FileName(clock + 1)) /\ NewFile
@@ -94,15 +107,29 @@ Step(e) ==
                                   /\ e.v = "v" \o ToString(calls) /\ ViewOpen(e.v) /\ Spend
       [] e.a = "ViewRelease"   -> ViewRelease(e.v) /\ Free
       [] e.a = "Crash"         -> Budget /\ Crashes /\ UNCHANGED vars /\ Spend
+      [] e.a = "Restart"       -> /\ Budget /\ Restarts
+                                  /\ \E p \in AnyP : Restart(FilesByName, Durable(tags), p)
+                                  /\ NameOrderIsServeOrder
+                                  /\ lost' = lost \cup Range(queue)
+                                  /\ calls' = calls + 1 /\ UNCHANGED clock
       [] e.a = "SetConverters" -> Call(SetConvOK(e.name, Range(e.convs)), SetConverters(e.name, Range(e.convs)))
       [] e.a = "ConvReset"     -> Budget /\ ConvReset(e.convs[1]) /\ Spend
       [] e.a = "ViewConvert"   -> Budget /\ ViewConvert(e.v, e.k, e.convs[1]) /\ Spend
 
-MCInit == Init /\ clock = 0 /\ calls = 0
+MCInit == Init /\ clock = 0 /\ calls = 0 /\ lost = {}
 MCNext == \E e \in JobEvents \cup ApiEvents : Step(e)
 MCSpec == MCInit /\ [][MCNext]_mcvars
 
 \* liveness (C09): once the environment is done, the service settles
+\* C10 / C12 with restarts: completeness is owed for the captures that were not lost in a kill
+MCViewComplete == CompleteFor(indexes, Processed \ lost)
+\* C12 (action property): a restart shows every stream that was visible, under its old id, with at least its data
+StreamsKeptStep ==
+    (calls' = calls + 1 /\ views' = <<>> /\ unmerge' = 0 /\ queue' = <<>> /\ Durable(tags') = Durable(tags) /\ use' # use) =>
+        \A e \in Visible(indexes) : \E e2 \in VisibleIn(files', indexes') : e2[1] = e[1] /\ e2[2] = e[2] /\ e[3] \subseteq e2[3]
+
+StreamsKeptProp == [][StreamsKeptStep]_mcvars
+
 EnvDone == calls = MaxCalls /\ Caps \subseteq known \cup Range(queue) /\ views = <<>>
 JobNext == \E e \in JobEvents : Step(e)
 MCFairSpec == MCSpec /\ WF_mcvars(JobNext) /\ WF_mcvars(\E v \in DOMAIN views : ViewRelease(v) /\ Free)
